@@ -17,8 +17,11 @@ from common import c_bool, c_list, c_nat, c_opt, c_Q
 
 from golem.core.adapter import DirectAdapter
 from golem.core.optimisers.fitness import MultiObjFitness, SingleObjFitness
-from golem.core.optimisers.genetic.evaluation import (DelegateEvaluator, MultiprocessingDispatcher,
+from golem.core.optimisers.genetic.evaluation import (BaseGraphEvaluationDispatcher, DelegateEvaluator,
+                                                      MultiprocessingDispatcher, ObjectiveEvaluationDispatcher,
                                                       SequentialDispatcher)
+from golem.core.optimisers.fitness import null_fitness
+from golem.core.optimisers.opt_history_objects.individual import GraphEvalResult
 from golem.core.optimisers.graph import OptGraph, OptNode
 from golem.core.optimisers.objective import Objective
 from golem.core.optimisers.opt_history_objects.individual import Individual
@@ -129,6 +132,37 @@ def delegate_images(add, mul, drop, gin):
     return out[:max(0, len(gin) - drop)]
 
 
+def permuted(items, mode, seed=0):
+    """the order in which an as-completed backend hands the results over"""
+    items = list(items)
+    if mode == 'reversed':
+        return items[::-1]
+    if mode == 'rotated':
+        return items[1:] + items[:1]
+    if mode == 'shuffled':
+        import random
+        random.Random(seed).shuffle(items)
+        return items
+    return items
+
+
+class AsCompletedDispatcher(BaseGraphEvaluationDispatcher):
+    """a dispatcher built from the public pieces of the base class whose backend returns the results in
+    completion order (reversed / rotated / shuffled), not in submission order"""
+
+    def __init__(self, adapter, completion, seed=0, delegate_evaluator=None):
+        super().__init__(adapter, delegate_evaluator=delegate_evaluator)
+        self.completion, self.seed = completion, seed
+
+    def evaluate_population(self, individuals):
+        to_evaluate, to_skip = self.split_individuals_to_evaluate(individuals)
+        self._remote_compute_cache(individuals)
+        results = [self.evaluate_single(ind.graph, ind.uid, cache_key=ind.uid) for ind in to_evaluate]
+        self._reset_eval_cache()
+        evaluated = self.apply_evaluation_results(to_evaluate, permuted(results, self.completion, self.seed))
+        return evaluated + to_skip
+
+
 class FakeTimer:
     """answers is_time_limit_reached by call index (only used in-process, n_jobs = 1)"""
 
@@ -236,7 +270,9 @@ WRONG_CALLBACK = 50000      # a call of a callback that is not the one currently
 def make_dispatcher(run, dg, adapter=None):
     adapter = adapter or DirectAdapter()
     delegate = Delegate(dg['add'], dg['mul'], dg['drop'], dg['enabled']) if dg else None
-    if run['par']:
+    if run.get('completion'):
+        disp = AsCompletedDispatcher(adapter, run['completion'], run.get('seed', 0), delegate_evaluator=delegate)
+    elif run['par']:
         disp = MultiprocessingDispatcher(adapter, n_jobs=run['n_jobs'], delegate_evaluator=delegate)
     else:
         disp = SequentialDispatcher(adapter, delegate_evaluator=delegate)
@@ -629,7 +665,7 @@ def classify(sc, run, ob):
     pre = [d for d in sc['pop'] if d['kind'] in ('pre', 'rep', 'inplace')]
     fails = sum(1 for d in news if any(isinstance(b, str) for b in sc['table'][str(d['label'])]))
     mix = 'none-new' if not news else 'all-fail' if fails == len(news) else 'all-ok' if fails == 0 else 'mixed'
-    return dict(dispatcher='parallel' if run['par'] else 'sequential', n_jobs=run['n_jobs'] if run['par'] else 0,
+    return dict(dispatcher='as-completed' if run.get('completion') else 'parallel' if run['par'] else 'sequential', n_jobs=run['n_jobs'] if run['par'] else 0,
                 size=len(sc['pop']), timer=sc['timer']['kind'], failures=mix,
                 pre_evaluated='some' if pre else 'none', in_place=any(d['kind'] == 'inplace' for d in sc['pop']), repeated=any(d['kind'] == 'rep' for d in sc['pop']),
                 delegate=('enabled' if sc['delegate']['enabled'] else 'disabled') if sc.get('delegate') else 'absent',
@@ -644,7 +680,7 @@ def nontrivial(sc, ob):
 
 
 def case_key(sc, run):
-    return (run['par'], run['n_jobs'], repr(sorted(run.get('delays', {}).items())), repr(sc))
+    return (run['par'], run['n_jobs'], run.get('completion'), run.get('seed'), repr(sorted(run.get('delays', {}).items())), repr(sc))
 
 
 # ----------------------------------------------------------------------------------------
@@ -696,7 +732,8 @@ def evaluate_cases(ctx, group, triples, with_canary=False):
 def describe_violation(sc, run, ob, clause_bits=()):
     failed = [name for name, ok in zip(CLAUSES, clause_bits) if not ok]
     head = 'evaluation of a population of %d by the %s dispatcher (n_jobs=%s)' % (
-        len(sc['pop']), 'parallel' if run['par'] else 'sequential', run.get('n_jobs'))
+        len(sc['pop']), ('as-completed (%s results)' % run['completion']) if run.get('completion') else
+        'parallel' if run['par'] else 'sequential', run.get('n_jobs'))
     if ob['raised']:
         head += ' raised ' + ob['raised']
     return '%s violates: %s; returned (uid, fitness, graph) %s' % (head, '; '.join(failed) or '?', ob['out'])
@@ -714,7 +751,10 @@ def run(ctx):
                 'callback, optionally re-evaluating the same Individual objects, or with a round (enabled delegate) aborted '
                 'by an exception escaping the evaluation, the delegate then switched off and the same individuals '
                 'evaluated again; or 2..3 dispatcher objects (same class or mixed) over ONE shared adapter instance, each '
-                'with its own objective table and callback, used alternately; every completed round is a case. Pre-existing fitness is given either by '
+                'with its own objective table and callback, used alternately; every completed round is a case. Results in '
+                'another order than the individuals: apply_evaluation_results called directly with valid / invalid / None '
+                '/ missing / foreign results in every order (small scope) or a random order, and a dispatcher subclass '
+                'whose backend hands the results over reversed / rotated / shuffled. Pre-existing fitness is given either by '
                 'Individual(graph, fitness=...) or by in-place assignment on a default-constructed Individual; the '
                 'fitness an individual has by construction is what the case states, not what the object reports. Exhaustive '
                 'small scope: all populations of <= 2 individuals over 6 kinds x 2 timers x 2 dispatchers. '
@@ -786,6 +826,18 @@ def run(ctx):
         for t in triples[:2]:
             ctx.sample({'scenario': t[0], 'run': t[1], 'observed': t[2]})
         check_cross(ctx, cross)
+        # ---- results handed over in another order than the individuals: the public static method directly
+        #      (every permutation in a small scope) and a dispatcher whose backend collects results as completed
+        descs = apply_descriptions(ctx)
+        ctx.set_exhaustive('apply-results', False)
+        check_apply(ctx, descs)
+        triples = []
+        for k in range(ctx.budget(60, 400)):
+            sc = gen_scenario(rng, rng.choice([2, 3, 4, 5, 6, 8, 12]))
+            rn = {'par': False, 'n_jobs': 1, 'completion': ['reversed', 'rotated', 'shuffled'][k % 3], 'seed': k}
+            triples.append((sc, rn, observe(sc, rn, tmpdir)))
+        ctx.set_exhaustive('as-completed', False)
+        evaluate_cases(ctx, 'as-completed', triples)
         # ---- sessions: one dispatcher object, several dispatch(objective, timer) + evaluate rounds; every
         #      evaluation must be what a fresh dispatcher dispatched with the same arguments answers (the model)
         triples = []
@@ -817,6 +869,119 @@ def run(ctx):
             get_reusable_executor().shutdown(wait=True)
         except Exception:  # noqa
             pass
+
+
+# ----------------------------------------------------------------------------------------
+# apply_evaluation_results called directly, results in any order
+# ----------------------------------------------------------------------------------------
+APPLY_FN = ('fun t => match t with (inds, rs, raised, out) => '
+            '[apply_agree inds rs raised out; apply_holds_b inds rs raised out] end')
+
+
+def observe_apply(desc):
+    """desc: {'inds': [{'label', 'pre': None | [v]}], 'results': [{'for': index | -1, 'kind', 'val', 'label'}]}
+    (results in the order handed over).  Fresh objects every time; returns the canonical observation."""
+    inds = [Individual(make_graph(d['label'])) if d['pre'] is None else
+            Individual(make_graph(d['label']), fitness=SingleObjFitness(*d['pre'])) for d in desc['inds']]
+    results = []
+    for k, r in enumerate(desc['results']):
+        if r['kind'] == 'none':
+            results.append(None)
+            continue
+        uid = inds[r['for']].uid if r['for'] >= 0 else 'foreign-%d' % k
+        fit = SingleObjFitness(float(r['val'])) if r['kind'] == 'valid' else null_fitness()
+        results.append(GraphEvalResult(uid_of_individual=uid, fitness=fit, graph=make_graph(r['label'])))
+    raised, out = None, []
+    try:
+        res = ObjectiveEvaluationDispatcher.apply_evaluation_results(inds, results)
+        for x in res:
+            j = next((j for j, ind in enumerate(inds) if ind is x), None)
+            out.append([j if j is not None else 9999, canon_fit(x.fitness), label_of(x.graph)])
+    except Exception as ex:  # noqa
+        raised = '%s: %s' % (type(ex).__name__, ex)
+    return {'raised': raised, 'out': out}
+
+
+def coq_apply_case(desc, ob):
+    inds = c_list([coq_ind(j, ['N', []] if d['pre'] is None else ['S', [float(v) for v in d['pre']]], d['label'])
+                   for j, d in enumerate(desc['inds'])], 'ind')
+    rs = []
+    for k, r in enumerate(desc['results']):
+        if r['kind'] == 'none':
+            rs.append('(@None eres)')
+        else:
+            fit = ['S', [float(r['val'])]] if r['kind'] == 'valid' else ['N', []]
+            rs.append('(Some {| r_uid := %s; r_fit := %s; r_graph := %s |})' % (
+                c_nat(r['for'] if r['for'] >= 0 else 900 + k), coq_fit(fit), c_nat(r['label'])))
+    out = c_list([coq_ind(u, f, g) for u, f, g in ob['out']], 'ind')
+    return '(%s, %s, %s, %s)' % (inds, c_list(rs, '(option eres)'), c_bool(ob['raised'] is not None), out)
+
+
+def apply_descriptions(ctx):
+    """exhaustive: n <= nmax individuals, each with a valid / invalid / None / missing result, results in EVERY
+    order; random: up to 9 individuals, foreign results, occasionally a pre-evaluated individual or two valid
+    results for one uid (outside the quantifier), random order"""
+    import itertools
+    rng = ctx.rng
+    out = []
+    nmax = ctx.pick(3, 4)
+    for n in range(nmax + 1):
+        for kinds in itertools.product(['valid', 'invalid', 'none', 'missing'], repeat=n):
+            base = [{'for': j, 'kind': k, 'val': 0.5 + j, 'label': 100 + j} for j, k in enumerate(kinds) if k != 'missing']
+            for perm in itertools.permutations(base):
+                out.append({'inds': [{'label': j, 'pre': None} for j in range(n)], 'results': list(perm)})
+    for _ in range(ctx.budget(200, 1500)):
+        n = rng.randrange(1, 10)
+        inds = [{'label': j, 'pre': None} for j in range(n)]
+        res = []
+        for j in range(n):
+            k = rng.choice(['valid', 'valid', 'valid', 'invalid', 'none', 'missing'])
+            if k != 'missing':
+                res.append({'for': j, 'kind': k, 'val': rng.choice(VALUES), 'label': 100 + j})
+        for _ in range(rng.choice([0, 0, 1, 2])):
+            res.append({'for': -1, 'kind': rng.choice(['valid', 'invalid']), 'val': rng.choice(VALUES), 'label': 300})
+        r = rng.random()
+        if r < 0.05:
+            inds[rng.randrange(n)]['pre'] = [rng.choice(PRE_VALUES)]          # ValueError if a valid result exists
+        elif r < 0.10 and res:
+            extra = dict(rng.choice(res), val=rng.choice(VALUES), label=200)   # a second result for one uid
+            res.append(extra)
+        rng.shuffle(res)
+        out.append({'inds': inds, 'results': res})
+    return out
+
+
+def check_apply(ctx, descs, group='apply-results'):
+    cases, meta = [], []
+    for d in descs:
+        ob = observe_apply(d)
+        cases.append(coq_apply_case(d, ob))
+        meta.append((d, ob))
+    # canary: a dropped individual must be flagged
+    d = {'inds': [{'label': 0, 'pre': None}, {'label': 1, 'pre': None}],
+         'results': [{'for': 1, 'kind': 'valid', 'val': 2.0, 'label': 101}, {'for': 0, 'kind': 'valid', 'val': 1.0, 'label': 100}]}
+    ob = observe_apply(d)
+    if len(ob['out']) == 2:
+        ctx.canaries += 1
+        cases.append(coq_apply_case(d, dict(ob, out=ob['out'][:1])))
+    res = ctx.coq_cases(group, REQ, APPLY_FN, cases, 2, shard=400)
+    if len(res) > len(meta) and res[-1] == (False, False):
+        ctx.canaries_caught += 1
+    for (d, ob), (ag, ho) in zip(meta, res):
+        valid = sum(1 for r in d['results'] if r['kind'] == 'valid')
+        in_order = [r['for'] for r in d['results'] if r['kind'] != 'none' and r['for'] >= 0] == \
+            sorted(r['for'] for r in d['results'] if r['kind'] != 'none' and r['for'] >= 0)
+        ctx.count(group, key=repr(d), nontrivial=valid > 0, individuals=len(d['inds']), valid_results=min(valid, 5),
+                  results_in_submission_order=in_order, returned=len(ob['out']), raised=ob['raised'] is not None)
+        case = {'apply': d, 'observed': ob}
+        if not ho:
+            ctx.violate(group, case, 'apply_evaluation_results(%d individuals, %d results handed over in the order %s) '
+                        'returned %s%s: not exactly the individuals with a valid result under their uid, each with that '
+                        "result's fitness and graph, in input order" % (
+                            len(d['inds']), len(d['results']), [r['for'] if r['kind'] != 'none' else None for r in d['results']],
+                            ob['out'], (' / raised ' + ob['raised']) if ob['raised'] else ''))
+        if not ag:
+            ctx.disagree(group, case, 'model of apply_evaluation_results and implementation differ')
 
 
 def delegate_order_free(dg):
@@ -862,9 +1027,13 @@ def check_cross(ctx, cross, group='cross'):
 def replay(ctx, payload):
     v = payload.get('violation') or payload.get('first_disagreement') or payload
     case = v.get('case') if isinstance(v, dict) else None
-    if not case or not ('scenario' in case or 'group' in case or 'session' in case):
+    if not case or not ('scenario' in case or 'group' in case or 'session' in case or 'apply' in case):
         return
     tmpdir = tempfile.mkdtemp(prefix='c05_')
+    if 'apply' in case:
+        shutil.rmtree(tmpdir, ignore_errors=True)
+        check_apply(ctx, [case['apply']], group='replay')
+        return
     if 'group' in case:                         # dispatchers over one shared adapter: redo the whole session
         try:
             grp = case['group']
